@@ -167,7 +167,9 @@ EARLY_SET = {}
 def walk_worker_table():
     def call(inq, ev, on_cb, outq):
         tp._mp_walk_worker(outq, inq, ev, on_cb)
-    return mpmodel.infer_worker(call)
+    table = mpmodel.infer_worker(call)
+    table["on_raise"] = mpmodel.infer_fault_reaction(call)
+    return table
 
 
 # ---------------------------------------------------------------- replay on the real code
